@@ -584,12 +584,40 @@ func hnetCheck(flows *hnetFlows, tr *netsim.Truth, params netsim.Params, key str
 			break
 		}
 	}
-	for i := range tr.Conns {
-		if i >= len(flows.Conns) {
-			break
+	// the statement says nothing about the order in which connections are listed (a first
+	// packet that arrives in IPv4 fragments reaches TCP only when its datagram is complete):
+	// a connection is matched with the listed connection that has its two endpoints,
+	// falling back to the position for the report when there is none
+	usedConn := make([]bool, len(flows.Conns))
+	findConn := func(ct *netsim.ConnTruth, pos int) int {
+		a, b := &ct.Dirs[0], &ct.Dirs[1]
+		for j := range flows.Conns {
+			if usedConn[j] {
+				continue
+			}
+			c, sv := &flows.Conns[j].Client, &flows.Conns[j].Server
+			fwd := c.IP == ipString(a.IP) && c.Port == int(a.Port) && sv.IP == ipString(b.IP) && sv.Port == int(b.Port)
+			rev := c.IP == ipString(b.IP) && c.Port == int(b.Port) && sv.IP == ipString(a.IP) && sv.Port == int(a.Port)
+			if fwd || rev {
+				return j
+			}
 		}
+		if pos < len(flows.Conns) && !usedConn[pos] {
+			return pos
+		}
+		return -1
+	}
+	for i := range tr.Conns {
 		ct := &tr.Conns[i]
-		got := [2]*hnetDir{&flows.Conns[i].Client, &flows.Conns[i].Server}
+		fi := findConn(ct, i)
+		if fi < 0 {
+			continue // fewer connections listed than made: connection-count reports it
+		}
+		usedConn[fi] = true
+		if fi != i {
+			res.Extra["connection_listed_at_other_position"]++
+		}
+		got := [2]*hnetDir{&flows.Conns[fi].Client, &flows.Conns[fi].Server}
 		// the client is the sender of the SYN. When the capture does not begin
 		// with the client's SYN (the tap missed it) the statement does not say
 		// which side is to be called client: then only the attribution of the
